@@ -6,6 +6,7 @@
 //!   harness tables                               -> Lean source of Generated/Tables.lean
 //!   harness depth <op> <shape> <n>               -> runs one long-list operation (child process)
 mod codec;
+mod cons_ops;
 mod gen;
 mod ops;
 mod oracle;
